@@ -7,7 +7,7 @@ CONSTANTS
   ImplSubs <- mcSubs
   ImplTopics <- mcTopics
   MsgKinds <- mcMsgKinds
-  BatchMax = 2
+  BatchMax = 1
   MaxMsgs = 3
   MaxTime = 0
   TickDs = {2, 5}
